@@ -224,6 +224,10 @@ func (root *Root) regField(obj *Object, fd *FieldDef, goField string, args ...st
 	meta := obj.meta
 	obj.mu.Unlock()
 	verifYield("regField")
+	if meta == nil {
+		// No Go type to look the field up on, a nil object is being resolved.
+		return fmt.Errorf("%w: %s has not been registered as a type", ErrMeta, obj.N)
+	}
 	// Use the type read while holding the lock from here on, obj.meta can be
 	// written by other goroutines resolving the same type.
 	objMeta := meta
